@@ -49,9 +49,12 @@ def diff_streams(rep, prop, cfg, tier, seed, binary, workdir, kf):
                 d[k] = int(v)
             rep.add_dist(d, label + '/')
         nfail = 0
+        only = cfg.get('ops_filter')
         for o, i, m in zip(ops, impl, model):
-            m = lib.canon_model(m)
             kind = o.split(' ', 1)[0]
+            if only and kind not in only:
+                continue
+            m = lib.canon_model(m)
             rep.case(o, nontrivial=cfg.get('nontrivial', lambda o, i: True)(o, i))
             if len(rep.samples) < 4 and kind in oracle_ops:
                 rep.sample(f'{o}  =>  impl: {i}')
